@@ -44,7 +44,7 @@ class ReplayCtx:
 
     def sym_val(self, name):
         v = self._get(name, None)
-        return ConcreteVal(str(v) if v is not None else name)
+        return f'<opaque {v if v is not None else name}>'      # JSON-serialisable stand-in for an opaque payload
 
     def choice(self, name, n):
         return int(self._get(name, 0))
